@@ -184,13 +184,23 @@ fn main_loop(
                 if conn.handle_shutdown(&req)? {
                     break;
                 }
-                handle_request(conn, state, req)?;
-            }
-            Message::Notification(notif) => {
-                if handle_notification(conn, state, notif)? {
-                    break;
+                // A request the server cannot read is answered with an error; it
+                // does not end the session.
+                let id = req.id.clone();
+                if let Err(e) = handle_request(conn, state, req) {
+                    conn.sender.send(Message::Response(Response::new_err(
+                        id,
+                        lsp_server::ErrorCode::InvalidParams as i32,
+                        e.to_string(),
+                    )))?;
                 }
             }
+            Message::Notification(notif) => match handle_notification(conn, state, notif) {
+                Ok(true) => break,
+                Ok(false) => {}
+                // Likewise a notification that cannot be read is dropped.
+                Err(e) => eprintln!("lsp: ignoring notification: {}", e),
+            },
             Message::Response(_) => {}
         }
     }
